@@ -1,4 +1,5 @@
-(* C09 -- move notation.  PARTIAL.
+(* C09 -- move notation.  Full on the model over the property's domain (its quantifier says: standard mode on positions
+   with standard castling geometry, Chess960 mode on all positions).
    Proved on the model: the shape of the printed string; square names are injective; in Chess960 mode the string
    determines the move (any position, any three-field move with squares on the board and a promotion piece that has
    a letter).  For every move the generator emits on a position passing `good_pos_b` (proofs/NotationMoves.v): the
@@ -7,8 +8,10 @@
    mode); distinct generated moves print differently (standard mode: under `std_geo`, a side that may castle has its
    king on the e-file, so the rewritten castling target cannot collide with a king step); the move parser resolves the
    printed string to the same move.  With C01's equivalence (the generated moves ARE the rules' legal moves) this covers every
-   legal move of the rules: C09_every_legal_move_has_its_notation. *)
-From Coq Require Import NArith ZArith List Bool.
+   legal move of the rules: C09_every_legal_move_has_its_notation.  `std_geo` only asks for the king of a side that may castle
+   to stand on the e-file (weaker than the property's standard geometry) and it is needed: C09_standard_geometry_is_needed is the
+   position 5k2/8/8/8/8/8/8/5K1R w K, accepted in standard mode, where the king step f1g1 and castling both print "f1g1". *)
+From Coq Require Import NArith ZArith List Bool String.
 From Rawr Require Import Consts Bits Magic Position MoveGen MakeMove MakeStages Fen Uci Rules Abs UciSpec NotationFacts NotationMoves GenSane Closure EpRetro MovegenComplete.
 Import ListNotations.
 Local Open Scope N_scope.
@@ -54,8 +57,23 @@ Proof.
   intros m' Hm' E. exact (to_uci_inj_legal p m' m G CG SG Hm' Hm E).
 Qed.
 
+(* outside the property's domain: standard mode on Chess960 geometry.  Two distinct generated moves print the same string. *)
+Theorem C09_standard_geometry_is_needed :
+  let p := match set_fen false false (lit "5k2/8/8/8/8/8/8/5K1R w K - 0 1"%string) with Some q => q | None => startpos end in
+  is_frc p = false /\ ~ std_geo p
+  /\ existsb (mv_eqb (mkMv 5 6 NOPIECE)) (legal_moves p) = true /\ existsb (mv_eqb (mkMv 5 7 NOPIECE)) (legal_moves p) = true
+  /\ to_uci p (mkMv 5 6 NOPIECE) = to_uci p (mkMv 5 7 NOPIECE).
+Proof.
+  cbv zeta. split; [vm_compute; reflexivity|]. split.
+  - intros H. unfold std_geo in H.
+    assert (E : (5 = E1)%N); [|vm_compute in E; discriminate E].
+    etransitivity; [|apply H; [vm_compute; reflexivity|left; vm_compute; reflexivity]]. vm_compute. reflexivity.
+  - split; [vm_compute; reflexivity|split; vm_compute; reflexivity].
+Qed.
+
 Print Assumptions C09_to_uci_shape.
 Print Assumptions C09_square_names_injective.
 Print Assumptions C09_to_uci_frc_injective.
 Print Assumptions C09_printed_is_the_specified_notation.
 Print Assumptions C09_every_legal_move_has_its_notation.
+Print Assumptions C09_standard_geometry_is_needed.
